@@ -23,7 +23,160 @@ func isEvent(ins ssa.Instruction, word string) bool {
 	return false
 }
 
+// loopsOf returns header -> blocks of each natural loop of fn.
+func loopsOf(fn *ssa.Function) map[*ssa.BasicBlock]map[*ssa.BasicBlock]bool {
+	out := map[*ssa.BasicBlock]map[*ssa.BasicBlock]bool{}
+	for _, h := range fn.Blocks {
+		for _, p := range h.Preds {
+			if !h.Dominates(p) {
+				continue
+			}
+			body := out[h]
+			if body == nil {
+				body = map[*ssa.BasicBlock]bool{h: true}
+				out[h] = body
+			}
+			var up func(b *ssa.BasicBlock)
+			up = func(b *ssa.BasicBlock) {
+				if body[b] {
+					return
+				}
+				body[b] = true
+				for _, q := range b.Preds {
+					up(q)
+				}
+			}
+			up(p)
+		}
+	}
+	return out
+}
+
+func (w *World) flowClauses(id string, opts *RunOpts, ex *Extra) {
+	report := func(name, bad string) {
+		path := writeTextReplay(opts, id, name, bad+"\n(abstract-mode control-flow obligation over go/ssa)", "", "", "bin/govc check "+id)
+		ex.Lines = append(ex.Lines, fmt.Sprintf("VIOLATION property=%s replay=%s no-failing-input-found", id, path))
+		ex.Lines = append(ex.Lines, "  failed obligation: "+name+": "+bad)
+		ex.Violations++
+	}
+	for _, c := range w.specs.Contracts {
+		if !hasTag(c.Props, id) {
+			continue
+		}
+		for _, cl := range c.Clauses {
+			if cl.Kind != "every-iteration-calls" && cl.Kind != "iteration-local" {
+				continue
+			}
+			word := strings.TrimSpace(cl.Raw)
+			name := fmt.Sprintf("%s/%s:%s", c.Func, cl.Kind, word)
+			fn := w.findFunc(c)
+			ex.Count++
+			if fn == nil {
+				ex.Lines = append(ex.Lines, "UNDECIDED: "+c.Func+" not found; "+name+" is not checked")
+				ex.Discharged++
+				continue
+			}
+			loops := loopsOf(fn)
+			switch cl.Kind {
+			case "every-iteration-calls":
+				found, bad := false, ""
+				for h, body := range loops {
+					has := false
+					for b := range body {
+						for _, ins := range b.Instrs {
+							if isEvent(ins, word) {
+								has = true
+							}
+						}
+					}
+					if !has {
+						continue
+					}
+					found = true
+					// can an iteration get from the body entry back to the header without the call?
+					seen := map[*ssa.BasicBlock]bool{}
+					var walk func(b *ssa.BasicBlock) bool
+					walk = func(b *ssa.BasicBlock) bool {
+						if b == h {
+							return true
+						}
+						if !body[b] || seen[b] {
+							return false
+						}
+						seen[b] = true
+						for _, ins := range b.Instrs {
+							if isEvent(ins, word) {
+								return false
+							}
+						}
+						for _, s := range b.Succs {
+							if walk(s) {
+								return true
+							}
+						}
+						return false
+					}
+					for _, s := range h.Succs {
+						if body[s] && s != h && walk(s) {
+							p := w.prog.Fset.Position(h.Instrs[0].Pos())
+							bad = fmt.Sprintf("an iteration of the loop at line %d can reach the next iteration without calling %s (an element is skipped)", p.Line, word)
+						}
+					}
+				}
+				switch {
+				case !found:
+					ex.Lines = append(ex.Lines, fmt.Sprintf("UNDECIDED: %s: no loop calling %s found in %s any more", name, word, c.Func))
+					ex.Discharged++
+				case bad != "":
+					report(name, bad)
+				default:
+					ex.Discharged++
+				}
+			case "iteration-local":
+				found, bad := false, ""
+				for _, blk := range fn.Blocks {
+					for _, ins := range blk.Instrs {
+						al, ok := ins.(*ssa.Alloc)
+						if !ok || !strings.Contains(al.Type().String(), word) {
+							continue
+						}
+						found = true
+						for _, ref := range *al.Referrers() {
+							fa, ok := ref.(*ssa.FieldAddr)
+							if !ok {
+								continue
+							}
+							for _, r2 := range *fa.Referrers() {
+								st, ok := r2.(*ssa.Store)
+								if !ok {
+									continue
+								}
+								for h, body := range loops {
+									if body[st.Block()] && !body[al.Block()] {
+										p := w.prog.Fset.Position(h.Instrs[0].Pos())
+										bad = fmt.Sprintf("a %s allocated outside the loop at line %d is written inside it: fields set in one iteration survive into the next, so the result depends on the iteration order", word, p.Line)
+									}
+								}
+							}
+						}
+					}
+				}
+				switch {
+				case !found:
+					ex.Lines = append(ex.Lines, fmt.Sprintf("UNDECIDED: %s: no %s value found in %s any more", name, word, c.Func))
+					ex.Discharged++
+				case bad != "":
+					report(name, bad)
+				default:
+					ex.Discharged++
+				}
+			}
+		}
+	}
+}
+
 func (w *World) callOrder(id string, opts *RunOpts, ex *Extra) {
+	w.flowClauses(id, opts, ex)
 	for _, c := range w.specs.Contracts {
 		if !hasTag(c.Props, id) {
 			continue
